@@ -87,15 +87,33 @@ def default_route_ok(rows, blocks, out, case):
     segmentation, of the same type — whatever the handler's result looks like (an empty MetadataBlock is a block)"""
     from pdtable.io.parsers.blocks import parse_blocks
     try:
-        got = [bt.name for bt, _ in parse_blocks(iter(rows), to="cellgrid")]
+        delivered = list(parse_blocks(iter(rows), to="cellgrid"))
     except Exception as e:  # noqa: BLE001
         out.fail("parse_blocks(to='cellgrid') raised on a row sequence", case, repr(e)[:200], None,
                  key="default_route_raised:" + type(e).__name__)
         return
+    got = [bt.name for bt, _ in delivered]
     want = [b["ty"] for b in blocks]
     if got != want:
         out.fail("the default block handlers do not deliver one block per segmented block", case, got, want,
                  key="default_route_blocks")
+        return
+    # no row of a block is lost inside its handler either: a directive carries one line per row after its first,
+    # a block delivered as raw cells is exactly its rows
+    for (bt, val), b in zip(delivered, blocks):
+        lines = getattr(val, "lines", None)
+        if bt.name == "DIRECTIVE" and lines is not None:
+            exp = [r[0] if len(r) else None for r in b["rows"][1:]]
+            if len(lines) != len(exp) or any(not (x is y or x == y or (x != x and y != y)) for x, y in zip(lines, exp)):
+                out.fail("a DIRECTIVE block does not carry the first cell of every row after its first",
+                         dict(case, block_first=b["first"]), [str(x) for x in lines], [str(x) for x in exp],
+                         key="default_route:directive_lines")
+                return
+        elif bt.name in ("TABLE", "TEMPLATE_ROW", "BLANK") and isinstance(val, (list, tuple)):
+            if [list(r) for r in val] != [list(r) for r in b["rows"]] and repr([list(r) for r in val]) != repr([list(r) for r in b["rows"]]):
+                out.fail("a block delivered as raw cells is not exactly its rows", dict(case, block_first=b["first"]),
+                         repr(val)[:300], repr(b["rows"])[:300], key="default_route:raw_rows")
+                return
 
 
 # ---------------------------------------------------------------- reference (from the property text)
